@@ -346,21 +346,36 @@ class AnnotationsItem:
                 if char == "\\":
                     if prev_char == "\\" and escaping:
                         escaping = False
+                        globstar = False
                         blocks.append("\\\\")
-                    else:
-                        escaping = True
+                        # The escaped backslash is complete; a following
+                        # backslash starts a new escape.
+                        prev_char = ""
+                        continue
+                    if prev_char == "*" and not globstar:
+                        # A single asterisk directly before an escape.
+                        blocks.append(r"[^/]*")
+                    escaping = True
                 elif char == "*":
                     if escaping:
                         blocks.append(re.escape("*"))
                         escaping = False
-                    elif prev_char == "*" and not globstar:
+                        globstar = False
+                        # An escaped asterisk is a literal, not a wildcard.
+                        prev_char = ""
+                        continue
+                    if prev_char == "*" and not globstar:
                         globstar = True
                         blocks.append(r".*")
                 elif char == "/":
-                    if not globstar:
-                        if prev_char == "*":
+                    if escaping or not globstar:
+                        if prev_char == "*" and not globstar:
                             blocks.append("[^/]*")
                         blocks.append("/")
+                    else:
+                        # '**/' also matches zero directories.
+                        blocks[-1] = r"(?:.*/)?"
+                    globstar = False
                     escaping = False
                 else:
                     if prev_char == "*" and not globstar:
@@ -372,10 +387,12 @@ class AnnotationsItem:
             if prev_char == "*" and not globstar:
                 blocks.append(r"[^/]*")
             result = "".join(blocks)
-            return f"^({result})$"
+            # \\Z instead of $: a trailing line feed is part of the path.
+            return f"^({result})\\Z"
 
+        # DOTALL: a path may contain a line feed, which '**' matches as well.
         self._paths_regex = re.compile(
-            "|".join(translate(path) for path in self.paths)
+            "|".join(translate(path) for path in self.paths), re.DOTALL
         )
 
     @classmethod
